@@ -509,4 +509,183 @@ theorem dailyTrend_zero (cfg : Cfg) (sig : Bool) (h : (sig && cfg.detrendingWith
   rw [List.getD_eq_getElem?_getD, List.getElem?_map, List.getElem?_map, List.getElem?_eq_getElem hi]
   rfl
 
+/-! ### a linear within-period trend added to `cm_future` is removed by step 3 and restored by step 7 -/
+
+theorem zipWith_map_map {α β γ δ} (g : β → γ → δ) (a : α → β) (b : α → γ) : ∀ (l : List α),
+    List.zipWith g (l.map a) (l.map b) = l.map (fun y => g (a y) (b y))
+  | [] => rfl
+  | y :: l => by simp only [List.map_cons, List.zipWith_cons_cons, zipWith_map_map g a b l]
+
+theorem sum_map_add' {α} (f g : α → Rat) (l : List α) :
+    (l.map (fun y => f y + g y)).sum = (l.map f).sum + (l.map g).sum := by
+  induction l with
+  | nil => simp
+  | cons y l ih => simp only [List.map_cons, List.sum_cons, ih]; ring
+
+theorem sum_map_mul_left' {α} (k : Rat) (f : α → Rat) (l : List α) :
+    (l.map (fun y => k * f y)).sum = k * (l.map f).sum := by
+  induction l with
+  | nil => simp
+  | cons y l ih => simp only [List.map_cons, List.sum_cons, ih]; ring
+
+theorem sum_map_sub_const {α} (f : α → Rat) (k : Rat) (l : List α) :
+    (l.map (fun y => f y - k)).sum = (l.map f).sum - k * (l.length : Rat) := by
+  induction l with
+  | nil => simp
+  | cons y l ih => simp only [List.map_cons, List.sum_cons, List.length_cons, ih]; push_cast; ring
+
+/-- **`linregress(x, y + b·(x − mean x)).slope = linregress(x, y).slope + b`** (guard: the abscissae are not all equal,
+    i.e. the sum of squares `ssxm ≠ 0`) -/
+theorem linSlope_add_linear {α} (l : List α) (cx f : α → Rat) (b : Rat)
+    (hD : (l.map (fun y => (cx y - mean (l.map cx)) * (cx y - mean (l.map cx)))).sum ≠ 0) :
+    linSlope (l.map cx) (l.map (fun y => f y + b * (cx y - mean (l.map cx)))) = linSlope (l.map cx) (l.map f) + b := by
+  have hne : l ≠ [] := by
+    intro h; subst h; simp at hD
+  have hn : ((l.length : Nat) : Rat) ≠ 0 := by
+    have : l.length ≠ 0 := fun h0 => hne (List.length_eq_zero_iff.mp h0)
+    exact_mod_cast this
+  set M := mean (l.map cx) with hM
+  -- the mean of the ordinates does not change: the added term has mean 0
+  have hmean : mean (l.map (fun y => f y + b * (cx y - M))) = mean (l.map f) := by
+    unfold mean
+    rw [sum_map_add', sum_map_mul_left', sum_map_sub_const, List.length_map, List.length_map]
+    have hMs : (l.map cx).sum = M * (l.length : Rat) := by
+      rw [hM]; unfold mean; rw [List.length_map]; field_simp
+    rw [hMs]
+    field_simp
+    ring
+  unfold linSlope
+  simp only [hmean, List.map_map, zipWith_map_map]
+  have hnum : (l.map (fun y => ((fun x => x - M) ∘ cx) y * ((fun x => x - mean (l.map f)) ∘ fun y => f y + b * (cx y - M)) y)).sum =
+      (l.map (fun y => ((fun x => x - M) ∘ cx) y * ((fun x => x - mean (l.map f)) ∘ f) y)).sum +
+        b * (l.map (fun y => ((fun x => x - M) ∘ cx) y * ((fun x => x - M) ∘ cx) y)).sum := by
+    rw [← sum_map_mul_left', ← sum_map_add']
+    congr 1
+    apply List.map_congr_left
+    intro y _
+    simp only [Function.comp]
+    ring
+  rw [hnum, add_div]
+  congr 1
+  have hD' : (l.map (fun y => ((fun x => x - M) ∘ cx) y * ((fun x => x - M) ∘ cx) y)).sum ≠ 0 := hD
+  exact mul_div_cancel_right₀ b hD'
+
+theorem selectWhere_add_const_on_mask (h : Int → Rat) (Y : Int) : ∀ (x : List Rat) (years : List Int),
+    Py.selectWhere (List.zipWith (· + ·) x (years.map h)) (years.map (fun t => decide (t = Y))) =
+      (Py.selectWhere x (years.map (fun t => decide (t = Y)))).map (fun v => v + h Y)
+  | [], _ => by simp [Py.selectWhere]
+  | _ :: _, [] => by simp [Py.selectWhere]
+  | a :: x, t :: years => by
+      have ih := selectWhere_add_const_on_mask h Y x years
+      unfold Py.selectWhere at *
+      simp only [List.map_cons, List.zipWith_cons_cons, List.zip_cons_cons, List.filterMap_cons]
+      by_cases ht : t = Y
+      · simp only [ht, decide_true, if_true, List.map_cons, ih]
+      · simp only [ht, decide_false, Bool.false_eq_true, if_false, ih]
+
+/-- the sum of squares of the (unique) years about their mean — `ssxm` of the regression -/
+def yearsSS (years : List Int) : Rat :=
+  ((uniqueYears years).map (fun (y : Int) => ((y : Rat) - meanYear years) * ((y : Rat) - meanYear years))).sum
+
+/-- the linear signal `b · (year − mean(unique years))`, one value per time step -/
+def linearSignal (b : Rat) (years : List Int) : List Rat := years.map (fun (y : Int) => b * ((y : Rat) - meanYear years))
+
+theorem yearlyMeans_add_linear (b : Rat) (x : List Rat) (years : List Int) (hlen : x.length = years.length) :
+    yearlyMeans (List.zipWith (· + ·) x (linearSignal b years)) years =
+      (uniqueYears years).map (fun (Y : Int) =>
+        mean (Py.selectWhere x (years.map (fun t => decide (t = Y)))) + b * ((Y : Rat) - meanYear years)) := by
+  unfold yearlyMeans linearSignal
+  apply List.map_congr_left
+  intro Y hY
+  rw [selectWhere_add_const_on_mask]
+  apply mean_shift
+  obtain ⟨i, hi, hiy⟩ := List.mem_iff_getElem.mp (mem_of_mem_uniqueYears hY)
+  apply selectWhere_ne_nil x _ i (by omega)
+  rw [List.getElem?_map, List.getElem?_eq_getElem hi]
+  simp [hiy]
+
+/-- the regression slope of the annual means gains exactly `b` -/
+theorem trendSlope_add_linear (b : Rat) (x : List Rat) (years : List Int) (hlen : x.length = years.length)
+    (hD : yearsSS years ≠ 0) :
+    trendSlope (List.zipWith (· + ·) x (linearSignal b years)) years = trendSlope x years + b := by
+  unfold trendSlope
+  rw [yearlyMeans_add_linear b x years hlen]
+  unfold yearlyMeans
+  exact linSlope_add_linear (uniqueYears years) (fun (y : Int) => (y : Rat))
+    (fun Y => mean (Py.selectWhere x (years.map (fun t => decide (t = Y))))) b hD
+
+theorem zipWith_add_add_sub : ∀ (x t g : List Rat), x.length = g.length → t.length = g.length →
+    List.zipWith (· - ·) (List.zipWith (· + ·) x g) (List.zipWith (· + ·) t g) = List.zipWith (· - ·) x t
+  | [], _, _, _, _ => by simp
+  | _ :: _, [], _, _, _ => by simp
+  | _ :: _, _ :: _, [], h, _ => by simp at h
+  | a :: x, c :: t, e :: g, h1, h2 => by
+      simp only [List.zipWith_cons_cons, zipWith_add_add_sub x t g (by simpa using h1) (by simpa using h2)]
+      congr 1
+      ring
+
+theorem zipWith_add_assoc : ∀ (r t g : List Rat),
+    List.zipWith (· + ·) r (List.zipWith (· + ·) t g) = List.zipWith (· + ·) (List.zipWith (· + ·) r t) g
+  | [], _, _ => by simp
+  | _ :: _, [], _ => by simp
+  | _ :: _, _ :: _, [] => by simp
+  | a :: r, c :: t, e :: g => by
+      simp only [List.zipWith_cons_cons, zipWith_add_assoc r t g]
+      congr 1
+      ring
+
+/-- **step 3 on `x + b·(year − mean year)`** (significant regression in both runs — oracle; `ssxm ≠ 0`): the detrended
+    series is the same, the removed trend gains exactly the added linear signal -/
+theorem step3RemoveTrend_add_linear (cfg : Cfg) (hsig : cfg.detrendingWithSignificanceTest = true) (b : Rat)
+    (x : List Rat) (years : List Int) (hlen : x.length = years.length) (hD : yearsSS years ≠ 0) :
+    step3RemoveTrend cfg true (List.zipWith (· + ·) x (linearSignal b years)) years =
+      ((step3RemoveTrend cfg true x years).1,
+       List.zipWith (· + ·) (step3RemoveTrend cfg true x years).2 (linearSignal b years)) := by
+  have hl' : (List.zipWith (· + ·) x (linearSignal b years)).length = years.length := by
+    simp [linearSignal, hlen]
+  have htr : dailyTrend cfg true (List.zipWith (· + ·) x (linearSignal b years)) years =
+      List.zipWith (· + ·) (dailyTrend cfg true x years) (linearSignal b years) := by
+    rw [dailyTrend_linear cfg hsig _ years hl', dailyTrend_linear cfg hsig x years hlen,
+      trendSlope_add_linear b x years hlen hD]
+    unfold linearSignal
+    rw [zipWith_map_map]
+    apply List.map_congr_left
+    intro y _
+    ring
+  unfold step3RemoveTrend
+  simp only [htr]
+  congr 1
+  apply zipWith_add_add_sub
+  · simp [linearSignal, hlen]
+  · rw [dailyTrend_length cfg true x years hlen]; simp [linearSignal, hlen]
+
+/-- **`_apply_on_window` with a linear within-period trend added to `cm_future`** (detrending on, significant
+    regression in both runs): steps 4–6 see identical inputs, step 7 restores the larger trend — the signal passes
+    through unchanged.  No restriction on the configuration of steps 4–6. -/
+theorem applyOnWindow_add_linear (cfg : Cfg) (hd : cfg.detrending = true) (hsig : cfg.detrendingWithSignificanceTest = true)
+    (fam : IsiFamily) (o : Oracles) (hF : o.sigF = true) (d : Draws) (b : Rat)
+    (obs H F : List Rat) (yO yH yF : List Int) (hlen : F.length = yF.length) (hD : yearsSS yF ≠ 0) :
+    applyOnWindow cfg fam o d obs H (List.zipWith (· + ·) F (linearSignal b yF)) yO yH yF =
+      (applyOnWindow cfg fam o d obs H F yO yH yF).map (fun r => List.zipWith (· + ·) r (linearSignal b yF)) := by
+  rw [applyOnWindow_eq, applyOnWindow_eq]
+  have h3 : step3 cfg o obs H (List.zipWith (· + ·) F (linearSignal b yF)) yO yH yF =
+      ((step3 cfg o obs H F yO yH yF).1, (step3 cfg o obs H F yO yH yF).2.1, (step3 cfg o obs H F yO yH yF).2.2.1,
+       List.zipWith (· + ·) (step3 cfg o obs H F yO yH yF).2.2.2 (linearSignal b yF)) := by
+    unfold step3
+    simp only [hd, if_true, hF, step3RemoveTrend_add_linear cfg hsig b F yF hlen hD]
+  rw [h3]
+  simp only []
+  cases step4 cfg d (step3 cfg o obs H F yO yH yF).1 (step3 cfg o obs H F yO yH yF).2.1 (step3 cfg o obs H F yO yH yF).2.2.1 with
+  | error e => rfl
+  | ok r4 =>
+    simp only [Except.bind, Except.map]
+    cases step5 cfg o r4.1 r4.2.1 r4.2.2 with
+    | error e => rfl
+    | ok oF =>
+      simp only [Except.bind]
+      cases step6 cfg fam o r4.1 oF r4.2.1 r4.2.2 with
+      | error e => rfl
+      | ok r =>
+        simp only [Except.bind, step7, hd, if_true, zipWith_add_assoc]
+
 end Lemmas.C02
